@@ -19,13 +19,17 @@ RULE = ('case = generated class with 1-3 cached methods (0-3 positional-or-keywo
         'distinct = hash(signatures, call sequence)')
 REQUIRED = ['calls', 'respelled_hits', 'different_binding_misses', 'ignored_arg_hits', 'force_calls', 'only_cache_calls',
             'store_value_calls', 'kwonly_default_spellings', 'own_cache_entry_counts', 'json_cache_classes', 'version_isolation_checks',
-            'falsy_store_values', 'respelled_hits_with_reordered_mappings', 'classes_with_one_decorator_object_for_several_methods']
+            'falsy_store_values', 'respelled_hits_with_reordered_mappings', 'classes_with_one_decorator_object_for_several_methods', 'failing_forced_calls']
 ASSUMPTIONS = ['positional-only parameters, *args/**kwargs, custom key functions and methods sharing one external cache object are out of scope',
                'argument values are drawn from a pool that is pairwise distinct as JSON text (it contains values that Python considers equal: 1 / 1.0 / True, 0 / 0.0 / False)']
 BUDGET = {'quick': 40, 'thorough': 900}
 
 POOL = [2, 3, -1, 'a', 'b', '', None, [2, 3], [3, 2], {'k': 2}, {'k': 3}, {'j': 2}, 'None', '2', 2.5, [], {}, 'é', [[2]], {'k': [2]},
         {'k': 2, 'j': 3}, {'k': 3, 'j': 2}, 1, 1.0, True, 0, 0.0, False, [1], [1.0], [True], [{'b': 1, 'a': [2]}, 2], {'x': {'q': 1, 'p': 2, 'r': None}, 'w': [3]}]
+
+
+class MethodBoom(Exception):
+    pass
 
 
 def reorder(rng, v):
@@ -157,8 +161,13 @@ def run_class(rng, res: CaseResult, cache_kind):
     tmp = None
     execs = []
 
+    fail_next = [False]
+
     def _exec(obj, name, b):
         execs.append((name, json.dumps(b, sort_keys=True)))
+        if fail_next[0]:
+            fail_next[0] = False
+            raise MethodBoom(name)
         return [name, len(execs), 'uniq']
 
     shared_line = ''
@@ -230,6 +239,22 @@ def run_class(rng, res: CaseResult, cache_kind):
             call_desc = {'class': 'KV' if use_v else 'K', 'method': m['name'], 'version': m['version'], 'args': args, 'kwargs': kwargs, **control}
             seq.append(call_desc)
             wit = {'source': src, 'cache': cache_kind, 'calls': seq}
+            failing = control == {'force_cache': True} and rng.random() < 0.3
+            if failing:
+                # the forced recomputation fails: the entry that was stored before stays (and nothing is stored if there was none)
+                fail_next[0] = True
+                call_desc['method_raises'] = True
+                try:
+                    getattr(target, m['name'])(*args, **kwargs, **control)
+                    res.violate(f'call {call_desc}: the method raised but the call returned normally', witness=wit)
+                    return
+                except MethodBoom:
+                    res.count('failing_forced_calls')
+                except Exception as e:
+                    res.violate(f'call {call_desc}: the method raised MethodBoom but the call raised {type(e).__name__}: {e}', witness=wit)
+                    return
+                fail_next[0] = False
+                continue
             try:
                 got = getattr(target, m['name'])(*args, **kwargs, **control)
             except Exception as e:
